@@ -1,0 +1,6 @@
+//go:build verif
+
+package odt
+
+// VerifInlineText exposes the inline content walker.
+func VerifInlineText(inner string) string { return inlineText(inner) }
